@@ -1,5 +1,5 @@
 """C05 — flattened keyword arguments are equivalent to an explicit request object."""
-import base64, itertools, json, os, re
+import base64, itertools, json, keyword, os, re
 from google.protobuf import descriptor_pb2 as dp
 from google.protobuf.descriptor import FieldDescriptor as FD
 from .. import env, coq, gen, apigen, dyn
@@ -13,9 +13,11 @@ RULE = ("APIs from harness/gv/props/flatapi.py: main package (proto-plus), optio
         "0..3 signatures per method over top-level and dotted paths with varying whitespace and repeats. "
         "For each method: every subset of the flattened parameters when there are at most 3, otherwise the empty set, the full set, "
         "the singletons and random subsets; values from random valuations of the request (defaults and empty containers included). "
-        "One case = (API, method, sync|asyncio, subset, values): kwargs call, request call and mixed call against the loopback gRPC "
+        "plus, for every parameter alone and for all together, the default of its type (0, '', False, [], {}, an empty message: "
+        "falsy but not None). One case = (API, method, sync|asyncio, subset, values): kwargs call, request call and mixed call against the loopback gRPC "
         "server. distinct = distinct canonical JSON of (descriptor hash, method, variant, subset, expected request bytes); "
-        "non-trivial = the method has at least one flattened parameter. Deterministic witness APIs for each candidate defect run first.")
+        "non-trivial = the method has at least one flattened parameter. The witness APIs of corpus/C05 (known findings, defects "
+        "repaired in /repo, presence of falsy values) run first.")
 TRUSTED = [
     "Model/Flatten.v: hand-written model of Field.name, MessageType.get_field, Method._fields_mapping, of the flattened-params block "
     "emitted by _client_macros.j2 (sync) and async_client.py.j2 as an IR, and of running that block on a message valuation",
@@ -26,18 +28,18 @@ TRUSTED = [
     "impl/schemafacts.py, impl/calldrive.py + impl/drivelib.py loopback gRPC server, dyn.Dyn decoder built from the input descriptors",
 ]
 ASSUMES = [
-    "flattened keys are pairwise distinct (true of every _fields_mapping result: theorem C05_fields_mapping_keys_nodup) and the passed "
+    "flattened keys are pairwise distinct (true of every _fields_mapping result: C05_params_in_declared_order) and the passed "
     "values have the kind of their field; dict values have distinct keys",
-    "the emitted method compiles (block_ok): no flattened parameter is named request/retry/timeout/metadata or like another parameter, "
-    "no dotted path goes through a reserved-word segment, at most one repeated field when the request is cross-package "
-    "(each exclusion is a reported candidate defect with a _refuted lemma)",
-    "no empty list/dict is passed for a flattened field reached through a dotted path (there sync and asyncio differ: reported)",
-    "asyncio client with a cross-package request: every flattened key is a top-level field (otherwise the constructor call raises: reported)",
+    "asyncio cross-package block: the mapping has no map fields (true of every cross-package _fields_mapping result: "
+    "C05_cross_mapping_no_maps)",
+    "the emitted method compiles (block_ok): no flattened parameter is named request/retry/timeout/metadata or like another "
+    "parameter, no dotted path goes through a reserved-word segment, no keyword-named field of a plain protobuf request "
+    "(each exclusion is a reported finding with a _refuted lemma and a corpus witness)",
+    "no empty list/dict is passed for a flattened field reached through a dotted path (there sync and asyncio differ: known finding)",
     "no flattened key is a prefix of another flattened key of the same method (the valuation model keeps such paths apart)",
     "at most one member of any oneof is passed in one call (the Values contract has no oneofs; such calls are judged by the oracle only)",
-    "signatures resolve: a reserved field name in a plain-protobuf (dependency) request makes _fields_mapping raise KeyError (modelled; reported)",
     "request call: a cross-package proto-plus request whose set fields all hold false values is replaced by a new empty message "
-    "(stated in C05_flattened_equiv's second disjunct; reported)",
+    "(stated in C05_flattened_equiv's second disjunct; known finding)",
 ]
 CONTROL = ["request", "retry", "timeout", "metadata"]
 IMPORTS = "From GV Require Import Model.Flatten."
@@ -49,8 +51,9 @@ def regen(ctx):
 
 # ---------------------------------------------------------------------------------------------- API generation
 def pick_sigs(r, idx, req_fqn, cross, hostile, avoid_defects=False):
-    """signatures over the paths of a request. avoid_defects: stay out of the reported candidate-defect regions that make
-    generation fail or the asyncio constructor raise (used by C03, which is about something else)"""
+    """signatures over the paths of a request, outside the regions of the reported findings that break the whole module
+    (parameter named like a control argument or like another parameter, reserved-word intermediate segment, keyword-named
+    field of a plain protobuf request): those have their own corpus witnesses"""
     paths = A.paths_of(idx, req_fqn, depth=2)
     reserved = set(flatgen.reserved_names())
     cands = []
@@ -59,13 +62,11 @@ def pick_sigs(r, idx, req_fqn, cross, hostile, avoid_defects=False):
         if any(s in reserved for s in segs[:-1]) and hostile != "reserved_segment":
             continue
         in_pb2 = not idx.proto_plus_pkg(idx.package_of(cont))
-        if segs[-1] in reserved and in_pb2 and (avoid_defects or r.random() < 0.9):
-            continue                          # reserved field name in a plain-protobuf request: generation raises KeyError (reported)
-        if avoid_defects and cross and "." in p:
-            continue
+        if segs[-1] in keyword.kwlist and in_pb2:
+            continue                          # a plain protobuf field keeps its name: "class: Optional[str]" (reported)
         cands.append((p, f, cont))
     nsig = r.choice([0, 1, 1, 2, 2, 3])
-    sigs, used_last, nrep, chosen = [], set(CONTROL), 0, []
+    sigs, used_last, chosen = [], set(CONTROL), []
     for _ in range(nsig):
         k = r.choice([0, 1, 1, 2, 2, 3, 4])
         items = []
@@ -82,12 +83,6 @@ def pick_sigs(r, idx, req_fqn, cross, hostile, avoid_defects=False):
                 continue
             if any(q.startswith(p + ".") or p.startswith(q + ".") for q in chosen):
                 continue                      # prefix-free keys
-            if cross and prim and is_rep:
-                if nrep >= 1:
-                    continue
-                nrep += 1
-            if cross and "." in p and prim and hostile != "cross_dotted" and r.random() < 0.8:
-                continue                      # dotted primitive in a cross-package request: asyncio defect region, kept rare
             used_last.add(last)
             chosen.append(p)
             items.append(p)
@@ -131,7 +126,7 @@ def make_api(r, shape):
 
 def witness_api(kind):
     """Deterministic single-method APIs, one per candidate defect (the witnesses of the _refuted lemmas)."""
-    cross = kind in ("cross_two_repeated", "cross_dotted", "reserved_in_pb2")
+    cross = kind in ("cross_two_repeated", "cross_dotted", "reserved_in_pb2", "keyword_param_pb2")
     subpkg = kind == "falsy_request"
     main = apigen.File("google/example/library/v1/library.proto", "google.example.library.v1",
                        deps=list(apigen.STD_DEPS) + (["acme/common/v1/common.proto"] if cross else [])
@@ -143,7 +138,7 @@ def witness_api(kind):
         sub.field("text", 1, "string")
         rq = dep.message("CommonRequest")
         rq.field("name", 1, "string").field("tags", 2, "string", repeated=True).field("nums", 3, "int64", repeated=True).field("sub", 4, sub.fqn)
-        rq.field("type", 5, "string")
+        rq.field("type", 5, "string").field("class", 6, "string")
         files.append(dep)
     elif subpkg:
         sh = apigen.File("google/example/library/v1/shared/shared.proto", "google.example.library.v1.shared")
@@ -156,18 +151,46 @@ def witness_api(kind):
         inner.field("title", 1, "string").field("tags", 2, "string", repeated=True)
         rq = main.message("GetBookRequest")
         rq.field("name", 1, "string").field("class", 2, inner.fqn).field("book", 3, inner.fqn).field("retry", 4, "string").field("other", 5, inner.fqn)
+        rq.field("parent", 6, "string").field("page_size", 7, "int32", optional=True).field("filter", 8, inner.fqn).field("flag", 9, "bool")
+        rq.field("ratio", 10, "double", optional=True).field("note", 11, "string", optional=True)
     resp = main.message("Reply")
     resp.field("note", 1, "string")
     svc = main.service("Library", host="library.example.com")
     sigs = {"cross_two_repeated": ["name,tags,nums"], "cross_dotted": ["name,sub.text"], "reserved_segment": ["class.title"],
             "control_name": ["name,retry"], "duplicate_param": ["book.title,other.title"], "empty_container_dotted": ["name,book.tags"],
-            "reserved_in_pb2": ["name,type"], "falsy_request": ["level"]}[kind]
+            "reserved_in_pb2": ["name,type"], "falsy_request": ["level"], "keyword_param_pb2": ["name,class"],
+            "presence": ["parent,page_size,filter,flag", "ratio,note"]}[kind]
     svc.rpc("GetBook", rq.fqn, resp.fqn, sigs=sigs)
     return apigen.request(files + [main], to_generate=togen + [main.proto.name], parameter="transport=grpc")
 
 
-WITNESSES = ["cross_two_repeated", "cross_dotted", "reserved_segment", "control_name", "duplicate_param", "empty_container_dotted",
-             "reserved_in_pb2", "falsy_request"]
+# corpus/C05/<kind>.json holds each of these (written by write_corpus); the first three are the witnesses of defects that were
+# repaired in /repo (353b7c7, 14fc9e4, d43e852): they stay so that a regression is reported
+WITNESSES = ["cross_two_repeated", "cross_dotted", "reserved_in_pb2", "presence", "reserved_segment", "control_name", "duplicate_param",
+             "empty_container_dotted", "falsy_request"]
+# a witness whose class is not yet in findings/known_findings.json is reported in scratch/findings and joins the run once it is
+PENDING = {"keyword_param_pb2": "flatten.keyword_param_in_pb2_request"}
+CORPUS = os.path.join(env.VERIF, "corpus", "C05")
+
+
+def write_corpus():
+    os.makedirs(CORPUS, exist_ok=True)
+    for k in WITNESSES + list(PENDING):
+        with open(os.path.join(CORPUS, f"w_{k}.json"), "w") as f:
+            json.dump({"tag": "w_" + k, "request_b64": apigen.req_b64(witness_api(k)), "rindex": 0,
+                       "runs_when_registered": PENDING.get(k)}, f, indent=1)
+
+
+def corpus_jobs():
+    from ..main import load_findings
+    known = {f.get("signature") for f in load_findings() if f.get("property") == "C05" and f.get("status") == "known"}
+    jobs = []
+    for name in sorted(os.listdir(CORPUS)) if os.path.isdir(CORPUS) else []:
+        c = json.load(open(os.path.join(CORPUS, name)))
+        if c.get("runs_when_registered") and c["runs_when_registered"] not in known:
+            continue
+        jobs.append((c["tag"], apigen.req_from_b64(c["request_b64"]), c.get("rindex", 0)))
+    return jobs
 
 
 # ---------------------------------------------------------------------------------------------- oracle-side reading of a signature
@@ -439,7 +462,7 @@ class ApiRun:
                 f"Some m => fields_mapping {self.sch_name} m {coq.b(cross)} {coq.slist(sigs)} | None => None end.")
             self.defs.append(
                 f"Definition {self.blk_name(k)} (v : variant) : option block := match assoc {coq.s(rq)} {self.sch_name}, {self.fm_name(k)} with "
-                f"Some m, Some f => Some (emit v f {coq.b(cross)} (m_proto_plus m) (ctor_fields m)) | _, _ => None end.")
+                f"Some m, Some f => Some (emit v f {coq.b(cross)} (m_proto_plus m)) | _, _ => None end.")
 
     def fm_name(self, k):
         return f"fm_{self.stag}_{k}"
@@ -478,18 +501,8 @@ class ApiRun:
         if res is None:
             unresolved = [table[k][2].name for k in exps if exps[k] is None]
             if not unresolved:
-                sig = None
-                for k, (fp, s, m, rq, cross) in enumerate(table):
-                    for sg in U.Index.signatures(m):
-                        for piece in sg.split(","):
-                            cur = rq
-                            for seg in piece.strip().split("."):
-                                if cur in self.idx.msgs and seg in self.reserved and not self.idx.proto_plus_pkg(self.idx.package_of(cur)):
-                                    sig = "flatten.reserved_name_in_pb2_request"
-                                nf = next((x for x in self.idx.msgs[cur][0].field if x.name == seg), None) if cur in self.idx.msgs else None
-                                cur = nf.type_name if nf is not None else None
                 ctx.violation(f"generation failed ({gen.error_kind(err)}) although every signature path resolves",
-                              dict(self.case, stderr=err[-600:]), sig if gen.error_kind(err) == "KeyError" else None)
+                              dict(self.case, stderr=err[-600:]))
             return
         files = gen.files_of(res)
         root = U.materialise(self.req, res, "c05_" + self.tag)
@@ -520,8 +533,8 @@ class ApiRun:
                         sig = sig or classify_compile_failure(exps[k])
                         if any(x in self.reserved for name, _, _ in exps[k] for x in name.split(".")[:-1]):
                             sig = sig or "flatten.reserved_intermediate_segment"
-                        if table[k][4] and sum(1 for _, _, f in exps[k] if f.label == F.LABEL_REPEATED) >= 2:
-                            sig = sig or "flatten.cross_pkg_repeated_indent"
+                        if any(q in keyword.kwlist for _, q, _ in exps[k]):
+                            sig = sig or "flatten.keyword_param_in_pb2_request"
                     ctx.violation(f"emitted {fname} of {s.name} does not compile: {type(e).__name__}: {e.msg} (line {e.lineno})",
                                   dict(self.case, file=path), sig)
                 self.checks.append((f"{self.tag}: {fname} of {s.name} compiles = {compiles} agrees with the model's block_ok",
@@ -567,8 +580,10 @@ class ApiRun:
             else:
                 cls_path = U.module_of(fp_req.name) + ":" + rq[len(fp_req.package) + 2:]
             subs = [(x, False) for x in subsets(r, len(keys), quick)]
-            if self.tag.startswith("w_") or r.random() < 0.25:
+            if self.tag.startswith("w_"):
                 subs += [(x, True) for x in subs_nonempty(subs)]
+            else:       # every parameter alone, and all together, at the default of its type: 0, "", False, [], {}, an empty message
+                subs += [((i,), True) for i in range(len(keys))] + ([(tuple(range(len(keys))), True)] if len(keys) > 1 else [])
             for si, (sub_, all_default) in enumerate(subs):
                 src = self.dyn.random(r, rq, fill=0.75)
                 # sometimes force vacuous values: defaults and empty containers
@@ -671,12 +686,7 @@ class ApiRun:
                 sigs_seen[(k, variant)] = o["signature"]
             # observed outcome in model terms
             mkeys = self.model_keys(k, keys)
-            # the asyncio constructor call uses the parameter names as field names: compare those top-level fields too
-            ppq = self.idx.proto_plus_pkg(self.idx.package_of(rq))
-            attr = {(f.name + "_" if (ppq and f.name in self.reserved) else f.name): f.name for f in self.idx.msgs[rq][0].field}
-            extra = [q for q in dict.fromkeys(params) if cross and q in attr and attr[q] not in keys and q not in mkeys
-                     and not any(x.startswith(attr[q] + ".") for x in keys)]
-            keys_x, mkeys_x = keys + [attr[q] for q in extra], mkeys + extra
+            keys_x, mkeys_x = keys, mkeys
             obs_term, got = self.observed(o, rq, keys_x, mkeys_x)
             sent[cid] = got
             pkw = coq.lst(f"({coq.s(params[i])}, {leaf_of(exp_msg, keys[i], passed=True)})" for i in sub_)
@@ -688,28 +698,14 @@ class ApiRun:
                 # two members of one oneof passed together: protobuf keeps the last one; the valuation model has no oneofs
                 # (ASSUMES); the direct oracle below still judges the call
                 ctx.features["same-oneof-pair (oracle only)"] += 1
-            elif variant == "Async" and cross and mode != "request" and any(
-                    params[i] in extra and (self.top_field(rq, attr[params[i]]).type, self.top_field(rq, attr[params[i]]).label)
-                    != (exp[i][2].type, exp[i][2].label) for i in sub_):
-                # the asyncio constructor hits a top-level field of another type than the flattened one: inside the reported
-                # defect region; how protobuf converts or rejects the value there is not part of the model
-                ctx.features["async-ctor-defect-region-unmodelled-outcome"] += 1
-            elif obs_term in ("ORaiseType",) and variant == "Async" and cross and extra:
-                # the asyncio constructor hit a top-level field of another type: inside the reported defect region, types of
-                # fields that are not flattened are not part of the model
-                ctx.features["async-ctor-defect-region-unmodelled-outcome"] += 1
             elif obs_term is not None:
                 self.checks.append((f"{self.tag}.{m.name} {variant} {mode} subset={case['subset']}: model outcome = observed",
                                     f"match {self.blk_name(k)} {variant} with Some b => outcome_eqb_on {coq.slist(mkeys_x)} {coq.slist(all_prefixes(mkeys_x))} "
                                     f"(exec b {ra} {kwt}) {obs_term} | None => false end"))
-            elif variant == "Async" and cross and any("." in kk for kk in keys):
-                ctx.features["async-ctor-defect-region-unmodelled-outcome"] += 1     # e.g. the value does not fit the field that is hit
             else:
                 ctx.oblige(f"T2 {self.tag}.{m.name} {variant} {mode}: outcome is one the model knows", False, json.dumps(o.get("error"))[:300], "T2")
             # ---- the property's own sentences
             known = None
-            if variant == "Async" and cross and any("." in kk for kk in keys):
-                known = "flatten.async_cross_pkg_dotted_ctor"
             if mode == "mixed":
                 if not (not o["ok"] and o["error"]["exception"] == "ValueError" and "individual field arguments" in o["error"]["message"] and not o["calls"]):
                     ctx.violation(f"{m.name} ({variant}): request and flattened arguments together did not raise ValueError before sending "
@@ -758,11 +754,7 @@ class ApiRun:
             same = (a["ok"] == b["ok"]) and (sent.get(cid) == sent.get(other)) and \
                    ((a.get("error") or {}).get("exception") == (b.get("error") or {}).get("exception"))
             if not same:
-                sigk = None
-                if cross and any("." in kk for kk in keys):
-                    sigk = "flatten.async_cross_pkg_dotted_ctor"
-                elif empty_dotted:
-                    sigk = "flatten.empty_container_dotted_key"
+                sigk = "flatten.empty_container_dotted_key" if empty_dotted else None
                 ctx.violation(f"{m.name}: sync and asyncio clients differ for keyword arguments {[keys[i] for i in sub_]}",
                               dict(self.case, method=m.name, subset=[keys[i] for i in sub_], expected_request_b64=U.b64(exp_msg)), sigk)
 
@@ -815,8 +807,6 @@ class ApiRun:
             return None, None
         if e["exception"] == "ValueError" and "individual field arguments" in e["message"]:
             return "ORaiseValue", None
-        if e["exception"] == "ValueError" and ("has no" in e["message"] or "Unknown field" in e["message"]):
-            return "ORaiseCtor", None
         if e["exception"] == "TypeError":
             return "ORaiseType", None
         return None, None
@@ -889,7 +879,8 @@ def error_cases(ctx):
 
 
 def run(ctx):
-    jobs = [("w_" + k, witness_api(k), 0) for k in WITNESSES]
+    jobs = corpus_jobs()
+    ctx.oblige(f"corpus: the {len(WITNESSES)} witness APIs of corpus/C05 are present", len(jobs) >= len(WITNESSES), f"{len(jobs)} found", "build")
     n = ctx.n(9, 120)
     shapes = ["same", "dep", "sub"]
     made = 0
